@@ -1159,3 +1159,7 @@ mod tests {
         }
     }
 }
+
+#[cfg(kani)]
+#[path = "/verif/kani/arrow-buffer/buffer/immutable.rs"]
+mod verif_kani;
